@@ -111,6 +111,10 @@ func genScanCase(r *rand.Rand) scanCase {
 	} else if sc.Stop != "" && sc.Start > sc.Stop && r.Intn(4) != 0 {
 		sc.Start, sc.Stop = sc.Stop, sc.Start
 	}
+	for sc.Start != "" && sc.Start == sc.Stop {
+		// start == stop is a Get by HBase convention, not a range: not generated
+		sc.Stop = pick()
+	}
 	sc.NumRows = []uint32{0, 1, 2, 3, 7}[r.Intn(5)]
 	sc.Partials = r.Intn(3) == 0
 	sc.PBResults = r.Intn(6) == 0
@@ -242,6 +246,9 @@ func compareScan(got []*hrpc.Result, model []modelRow, partials, prefixOK bool, 
 	var rows []grow
 	for i, r := range got {
 		cells := resultCells(r)
+		if len(cells) == 0 && partials && r.Partial {
+			continue // an empty fragment adds nothing to its row
+		}
 		if len(cells) == 0 {
 			return "scan:empty-result", fmt.Sprintf("result %d has no cells", i)
 		}
